@@ -53,6 +53,9 @@ pub struct Cfg {
     pub poison: bool,
     /// extra initial states (label, builder)
     pub prefilled: Vec<(String, Vec<Ev>)>,
+    /// sweeps (label, events, from): like `prefilled`, but the state after *every* event with index >= from
+    /// is an initial state of the search (e.g. a long line, then Left x n: every cursor position)
+    pub prefilled_sweep: Vec<(String, Vec<Ev>, usize)>,
     /// build the Cli with the deprecated `Cli::new` instead of the builder
     pub deprecated_ctor: bool,
     /// refine the canonical key by the one-step behaviour signature (small configurations only: every
@@ -680,6 +683,15 @@ impl<C: Autocomplete + Help> Model for SessModel<C> {
             }
             v.push((label.clone(), s));
         }
+        for (label, evs, from) in &self.cfg.prefilled_sweep {
+            let mut s = base.clone();
+            for (j, e) in evs.iter().enumerate() {
+                apply_in_place::<C>(&mut s, e);
+                if j >= *from {
+                    v.push((format!("{} @{}", label, j + 1), s.clone()));
+                }
+            }
+        }
         v
     }
 
@@ -688,7 +700,9 @@ impl<C: Autocomplete + Help> Model for SessModel<C> {
     }
 
     fn checked_prefill(&self) -> Vec<(String, Vec<Ev>)> {
-        self.cfg.prefilled.clone()
+        let mut v = self.cfg.prefilled.clone();
+        v.extend(self.cfg.prefilled_sweep.iter().map(|(l, e, _)| (l.clone(), e.clone())));
+        v
     }
 
     fn key(&self, s: &Sess) -> SKey {
